@@ -103,16 +103,20 @@ def notify_ids(n_per_dest, dests=2):
             eg = V.SimpleEventgroup(svc, 5)
             eg.log.disabled = True
             eg.values[1] = b"x"
+            eg.values[2] = b"yz"
             eps = [H.IPv4EndpointOption(address=ipaddress.IPv4Address("10.0.0.%d" % (k + 1)), l4proto=H.L4Protocols.UDP, port=4000) for k in range(dests)]
             for k in range(n_per_dest):
                 for ep in eps[: 1 if k % 3 else dests]:
-                    await eg._notify_single(ep, [1], "t")
+                    # one, two or three notifications packed into one datagram
+                    await eg._notify_single(ep, [[1], [1], [1, 2], [2, 1, 1]][k % 4], "t")
             return eps
         loop.run_until_complete(go())
         per = {}
         for data, addr in sent:
-            m, rest = H.SOMEIPHeader.parse(data)
-            per.setdefault(addr, []).append(m.session_id)
+            rest = data
+            while rest:          # every message of the datagram
+                m, rest = H.SOMEIPHeader.parse(rest)
+                per.setdefault(addr, []).append(m.session_id)
         return per
     finally:
         asyncio.set_event_loop(None)
